@@ -13,7 +13,7 @@ from specmc import gen
 ID = "C12"
 LEVEL = "model_checking"
 RULE = ("(a) every document of a reference-heavy family and the repository's baseline documents: generated twice in one process, in "
-        "fresh processes under real PYTHONHASHSEED 0..7 (thorough 0..31), with and without the ruff post-hooks; (b) set order as "
+        "fresh processes under real PYTHONHASHSEED 0..7 (thorough 0..31), with and without the ruff post-hooks, and with five post-hooks whose order shows in the tree (also under owned set order); (b) set order as "
         "scheduling: under the VSet loader every iterated set of >=2 elements is re-ordered (all permutations up to 4 elements, "
         "adjacent swaps + reversal + rotation above), one deviation at a time (thorough: also pairs), every byte difference "
         "confirmed with real hash seeds before it is reported; (c) all permutations of components.schemas (<=4 names permuted) "
@@ -177,7 +177,9 @@ def _sub(mode, job, hashseed=None, path_extra=None):
 def _jobdoc(doc_id, hooks=False):
     doc, opts = fam()[doc_id]
     opts = dict(opts)
-    if hooks:
+    if hooks == "markers":      # hooks whose ORDER is visible in the tree they leave behind
+        opts["post_hooks"] = [f"echo {w} >> hooks.log" for w in ("one", "two", "three", "four", "five")]
+    elif hooks:
         opts["post_hooks"] = ["ruff check . --fix --extend-select=I", "ruff format ."]
     return {"id": doc_id, "doc": doc, "options": opts}
 
@@ -190,6 +192,9 @@ def cases(tier):
         yield {"labels": [f"real-hash-seed={s}"], "payload": {"mode": "seed", "seed": s, "docs": ids, "hooks": False}}
     for s in (seeds[:3] if tier == "quick" else seeds[:8]):
         yield {"labels": [f"real-hash-seed={s}", "ruff-hooks"], "payload": {"mode": "seed", "seed": s, "docs": small[:6] + ["baseline31"], "hooks": True}}
+    for s in seeds:
+        yield {"labels": [f"real-hash-seed={s}", "marker-hooks"], "payload": {"mode": "seed", "seed": s, "docs": small[:2], "hooks": "markers"}}
+    yield {"labels": [f"set-orders={small[0]}", "marker-hooks"], "payload": {"mode": "vset", "doc": small[0], "pairs": False, "hooks": "markers"}}
     for i in ids:
         yield {"labels": [f"repeat={i}"], "payload": {"mode": "repeat", "doc": i}}
         yield {"labels": [f"set-orders={i}"], "payload": {"mode": "vset", "doc": i, "pairs": tier == "thorough" and not i.startswith("baseline")}}
@@ -223,7 +228,7 @@ def _seed_case(p):
         a, b = base.get(i, {}), other.get(i, {})
         if a.get("files") != b.get("files"):
             diff = _first_diff_files(a.get("files"), b.get("files"))
-            viol.append({"oracle": "hash-seed", "site": "hooks" if p["hooks"] else "no-hooks", "key": f"{i}/{_role_of(diff)}",
+            viol.append({"oracle": "hash-seed", "site": ("marker-hooks" if p["hooks"] == "markers" else "hooks") if p["hooks"] else "no-hooks", "key": f"{i}/{_role_of(diff)}",
                          "detail": f"document {i}: PYTHONHASHSEED={ref_seed} and ={p['seed']} give different bytes in {diff[:5]}"})
     return {"violations": viol, "outcome": "ok" if not viol else "viol:hash-seed", "nontrivial": True, "steps": 2 * len(p["docs"])}
 
@@ -246,13 +251,13 @@ def _repeat_case(p):
 
 
 def _vset_case(p):
-    job = {"doc": _jobdoc(p["doc"]), "pairs": p.get("pairs", False)}
+    job = {"doc": _jobdoc(p["doc"], p.get("hooks", False)), "pairs": p.get("pairs", False)}
     out = _sub("vset", job)
     viol = []
     confirmed = 0
     if out["candidates"]:
         # a model-level difference is a candidate: look for two real hash seeds that reproduce a byte difference
-        djob = {"docs": [_jobdoc(p["doc"])]}
+        djob = {"docs": [_jobdoc(p["doc"], p.get("hooks", False))]}
         seen = {}
         for s in range(64):
             d = _sub("digest", djob, hashseed=s)["digests"][p["doc"]].get("files")
